@@ -416,8 +416,10 @@ def finish(ctx, level, rule, trusted, search=None, explanation=None):
         cov['samples'] = ['(no sample recorded)']
     ev = dict(property_id=ctx.pid, tier=ctx.tier, seed=ctx.seed, level=level, coverage=cov,
               assumptions=ctx.assumptions + ctx.notes, wall_s=round(time.time() - ctx.t0, 1), violations=len(new) + (1 if (broken and not new) else 0))
-    os.makedirs(os.path.join(VERIF, 'evidence'), exist_ok=True)
-    json.dump(ev, open(os.path.join(VERIF, 'evidence', ctx.pid + '.json'), 'w'), indent=1, default=str)
+    # development runs against another checkout (tools/devcheck.sh, seeded mutants) must never overwrite the evidence of /repo
+    evdir = os.path.join(VERIF, 'evidence') if os.path.realpath(REPO) == '/repo' else os.path.join(VERIF, 'build', 'dev-evidence')
+    os.makedirs(evdir, exist_ok=True)
+    json.dump(ev, open(os.path.join(evdir, ctx.pid + '.json'), 'w'), indent=1, default=str)
     for l in lines:
         print(l)
     print('%s %s: %d/%d obligations, %d evaluations, %d violations, %.0fs' % (ctx.pid, ctx.tier, ndis, nob, cov['evaluations'], len(new), time.time() - ctx.t0))
